@@ -24,6 +24,8 @@ def instances(tier):
     out.append({'entry': 'h_ascii_case', 'params': [], 'bound': 'every ASCII character 1..127'})
     for L in ((0, 1, 3, 4, 5, 8, 12, 13, 15, 16, 17) if q else tuple(range(0, 34))):
         out.append({'entry': 'h_wide', 'params': [L], 'bound': 'String of %d bytes (last two symbolic ASCII) converted to wchar_t in place (operator const wchar_t*, wlength)' % L})
+    for k in ((0, 1, 2) if q else (0, 1, 2, 3)):
+        out.append({'entry': 'h_from_wide_array', 'params': [k], 'bound': 'String(Array<wchar_t>) for every sequence of %d scalar value(s), array without terminator' % k})
     return out
 
 
